@@ -81,7 +81,25 @@ def run_checks(patch, ids):
     return results
 
 
+def recheck():
+    """recheck <name> <ids...>: run the checks again on an already confirmed change (after strengthening);
+    the earlier result is kept under "history"."""
+    name = sys.argv[2]
+    ids = [a for a in sys.argv[3:] if re.match(r"C\d\d$", a)]
+    dest = os.path.join(VERIF, "seeded", name)
+    meta = json.load(open(os.path.join(dest, "meta.json")))
+    results = run_checks(os.path.join(dest, "patch.diff"), ids)
+    caught = [p for p, r in results.items() if r["exit"] != 0]
+    meta.setdefault("history", []).append({"caught_by": meta.get("caught_by"), "checks_run": meta.get("checks_run")})
+    meta["checks_run"] = results
+    meta["caught_by"] = caught
+    json.dump(meta, open(os.path.join(dest, "meta.json"), "w"), indent=1)
+    print("   recheck %s caught_by=%s" % (name, caught))
+
+
 def main():
+    if len(sys.argv) >= 4 and sys.argv[1] == "recheck":
+        return recheck()
     if len(sys.argv) < 5 or sys.argv[1] != "eval":
         raise SystemExit(__doc__)
     out_dir, name, pid = sys.argv[2], sys.argv[3], sys.argv[4]
